@@ -439,6 +439,11 @@ func genC01(seed uint64, tier Tier) *Case {
 				f.Action = []string{"eio", "enospc", "short"}[g.r.Intn(3)]
 				f.Op, f.After = "write", false
 				f.PathSuffix = []string{".meta", ".docs"}[g.r.Intn(2)]
+				if g.r.Bool(0.4) {
+					// the write went through, the fsync that follows it fails: the block is in the file, nobody was told
+					// that it is durable
+					f.Op, f.Action = "sync", "eio"
+				}
 			}
 			c.Faults = append(c.Faults, f)
 			c.Steps = append(c.Steps, Step{Kind: "arm", Group: round})
